@@ -203,7 +203,9 @@ theorem Grows.fr {a b : St} (h : Grows a b) (f : FS → FS) : Grows a (b.fr f) :
 theorem Grows.handover {a b : St} (h : Grows a b) (n : Str) : Grows a (b.handover n) := h.fr _
 theorem Grows.closeKeep {a b : St} (h : Grows a b) : Grows a b.closeKeep := h.fr _
 theorem Grows.request {a b : St} (h : Grows a b) (t : Bool) : Grows a (b.request t) := h.fr _
-theorem Grows.pushLevel {a b : St} (h : Grows a b) : Grows a b.pushLevel := h.fr _
+theorem Grows.pushLevel {a b : St} (h : Grows a b) (mc : Nat) : Grows a (b.pushLevel mc) := h.fr _
+theorem Grows.visit {a b : St} (h : Grows a b) (ty : Str) : Grows a (b.visit ty) := h.fr _
+theorem Grows.failTok {a b : St} (h : Grows a b) : Grows a b.failTok := h.fr _
 theorem Grows.launch {a b : St} (h : Grows a b) (ns : List Str) : Grows a (b.launch ns) := h.fr _
 theorem Grows.startBranch {a b : St} (h : Grows a b) : Grows a b.startBranch := h.fr _
 theorem Grows.endBranch {a b : St} (h : Grows a b) (f : Bool) : Grows a (b.endBranch f) := h.fr _
@@ -294,6 +296,8 @@ local macro "grow_step" : tactic => `(tactic|
     | apply Grows.closeKeep
     | apply Grows.request
     | apply Grows.pushLevel
+    | apply Grows.visit
+    | apply Grows.failTok
     | apply Grows.launch
     | apply Grows.join
     | apply Grows.retryAfter
